@@ -28,6 +28,8 @@ EVIDENCE_DIR = os.path.join(VERIF, "evidence")
 REPLAY_DIR = os.path.join(VERIF, "replays")
 KNOWN_FILE = os.path.join(VERIF, "known_findings.json")
 MAX_REPORTED = 12
+ROTATIONS = 4
+GIVEN_SEED = None
 
 
 def case_hash(case_id):
@@ -286,11 +288,13 @@ def explore(make_cases, run_case, init=None, timeout=20.0, nworkers=None, flush_
                 found[idx] = (cid, case)
                 if len(found) == len(wanted):
                     break
-        for idx in sorted(found):
+        order = sorted(found)
+        results = {}
+        if confirm_hangs:
+            results = _confirm_hangs(run_case, init, [(idx,) + found[idx] for idx in order], timeout, nworkers)
+        for idx in order:
             cid, case = found[idx]
-            confirmed = True
-            if confirm_hangs:
-                confirmed = _confirm_hang(run_case, init, cid, case, timeout)
+            confirmed = results.get(idx, True)
             total["evaluations"] += 1
             if confirmed is True:
                 total["outcomes"]["hang"] = total["outcomes"].get("hang", 0) + 1
@@ -302,50 +306,66 @@ def explore(make_cases, run_case, init=None, timeout=20.0, nworkers=None, flush_
     return total
 
 
-def _confirm_hang(run_case, init, cid, case, timeout):
-    """Re-run one case alone in a fresh fork; True if it hangs again, else its result dict."""
-    r, w = os.pipe()
-    pid = os.fork()
-    if pid == 0:
-        os.close(r)
-        quiet()
-        try:
-            if init is not None:
-                init()
-            res = run_case(cid, case)
-            _send(w, res)
-        except BaseException as e:
-            try:
-                _send(w, {"outcome": "harness-error", "harness_error": f"{type(e).__name__}: {e}"})
-            except Exception:
-                pass
-        os._exit(0)
-    os.close(w)
-    deadline = time.time() + timeout * 1.5
-    buf = b""
-    result = True
-    while time.time() < deadline:
-        rl, _, _ = select.select([r], [], [], 0.25)
-        if rl:
-            chunk = os.read(r, 1 << 20)
-            if not chunk:
-                break
-            buf += chunk
-            if len(buf) >= 4:
-                (ln,) = struct.unpack("<I", buf[:4])
-                if len(buf) >= 4 + ln:
-                    result = pickle.loads(buf[4:4 + ln])
-                    break
-    try:
-        os.kill(pid, signal.SIGKILL)
-    except ProcessLookupError:
-        pass
-    try:
-        os.waitpid(pid, 0)
-    except ChildProcessError:
-        pass
-    os.close(r)
-    return result
+def _confirm_hangs(run_case, init, items, timeout, nworkers):
+    """Re-run each (idx, cid, case) alone in a fresh fork (up to nworkers at a time).
+    Result per idx: True if it hangs again, else its result dict."""
+    results = {}
+    pending = list(items)
+    running = {}  # rfd -> (idx, pid, deadline, buf)
+    while pending or running:
+        while pending and len(running) < nworkers:
+            idx, cid, case = pending.pop(0)
+            r, w = os.pipe()
+            pid = os.fork()
+            if pid == 0:
+                os.close(r)
+                quiet()
+                try:
+                    if init is not None:
+                        init()
+                    res = run_case(cid, case)
+                    _send(w, res)
+                except BaseException as e:
+                    try:
+                        _send(w, {"outcome": "harness-error", "harness_error": f"{type(e).__name__}: {e}"})
+                    except Exception:
+                        pass
+                os._exit(0)
+            os.close(w)
+            running[r] = [idx, pid, time.time() + timeout, b""]
+        rl, _, _ = select.select(list(running), [], [], 0.25)
+        now = time.time()
+        for r in list(running):
+            idx, pid, deadline, buf = running[r]
+            finished = False
+            if r in rl:
+                chunk = os.read(r, 1 << 20)
+                if chunk:
+                    buf += chunk
+                    running[r][3] = buf
+                    if len(buf) >= 4:
+                        (ln,) = struct.unpack("<I", buf[:4])
+                        if len(buf) >= 4 + ln:
+                            results[idx] = pickle.loads(buf[4:4 + ln])
+                            finished = True
+                else:
+                    results.setdefault(idx, True)
+                    finished = True
+            if not finished and now > deadline:
+                results[idx] = True
+                finished = True
+            if finished:
+                try:
+                    os.kill(pid, signal.SIGKILL)
+                except ProcessLookupError:
+                    pass
+                try:
+                    os.waitpid(pid, 0)
+                except ChildProcessError:
+                    pass
+                os.close(r)
+                del running[r]
+    return results
 
 
 # ------------------------------------------------------------------ known findings
@@ -435,6 +455,7 @@ def finish(prop_id, level, tier, seed, total, t0, rule, assumptions, bounds, exh
         "states": total["states"],
         "transitions": total["transitions"],
         "traces_validated_against_impl": total["evaluations"] if traces_validated is None else traces_validated,
+        "rotation": seed,
         "exhaustive": bool(exhaustive and not total.get("aborted")),
         "cap_hit": total.get("aborted"),
         "bounds": bounds,
@@ -451,7 +472,7 @@ def finish(prop_id, level, tier, seed, total, t0, rule, assumptions, bounds, exh
     ev = {
         "property_id": prop_id,
         "tier": tier,
-        "seed": seed,
+        "seed": seed if GIVEN_SEED is None else GIVEN_SEED,
         "level": level,
         "coverage": coverage,
         "assumptions": assumptions,
